@@ -474,6 +474,10 @@ func c9special() []*c9pat {
 		c9num(0),
 		c9expr("(p, 3, p)", model.Num(c9OuterP), model.Num(3)),
 		c9expr("([p, 1])", model.Arr(0, model.Num(c9OuterP), model.Num(1))),
+		// two different outer names with the same value: each element consumes a member
+		c9set(c9it(c9expr("(p)", model.Num(c9OuterP))), c9it(c9expr("(q)", model.Num(c9OuterP)))),
+		c9set(c9it(c9expr("(p)", model.Num(c9OuterP))), c9it(c9expr("(q)", model.Num(c9OuterP))), c9rest("t")),
+		c9set(c9it(c9expr("(p)", model.Num(c9OuterP))), c9it(c9expr("(q)", model.Num(c9OuterP))), c9it(aName)),
 		c9arr(c9rest(""), c9rest("t")), // two rests: non-deterministic, must be an error
 		c9arr(c9rest("t"), c9it(aName), c9rest("u")),
 	}
